@@ -409,7 +409,8 @@ func (this *Hnsw) searchLevel(query math.Vector, entrypoint *hnswVertex, ef, lev
 		resultVertices.Push(pqItem)
 	}
 
-	visitedVertices := make(map[*hnswVertex]struct{}, ef*this.config.mMax0)
+	// ef follows the caller's k: no more vertices can be visited than the index holds.
+	visitedVertices := make(map[*hnswVertex]struct{}, math.MinInt(ef*this.config.mMax0, int(this.Len())+1))
 	visitedVertices[entrypoint] = struct{}{}
 
 	for candidateVertices.Len() > 0 {
